@@ -208,6 +208,40 @@ def run(prog: Program, rep, thorough: bool) -> None:
                 rep.fail('C17.R3', mun.path, cps.node.lineno, cps.qualname, f'ordering:{label}{tag}',
                          f'calibration with {label}{tag}: stores m = {mrf!r}; the ammunition then gives v(t1) = {got!r}, '
                          f'not the measured v1')
+    # the usual order of use - build the ammunition with the switch on and no modifier yet, then calibrate - works only
+    # when the constructor keeps the switch (and the modifier) as given: Ammo.__init__ evaluated for every combination
+    ac = prog.cls(C.M_MUN, 'Ammo')
+    ctor_bad = []
+    n_ctor = 0
+    for sw in (True, False):
+        for mod_label, mod_kw in (('no modifier given', {}), ('modifier 0', {'temp_modifier': Scalar(0)}), ('a modifier m', {'temp_modifier': S('m')})):
+            evc = Evaluator(prog, hooks={**C.pref_hooks(prog), **C.no_wrap_hooks()})
+            stc = State()
+            try:
+                obj = evc.construct(ac, [SymObj('dm'), _mps(evc, stc, prog, 'v0')],
+                                    {'powder_temp': _celsius(evc, stc, prog, 'T0'), 'use_powder_sensitivity': Const(sw), **mod_kw},
+                                    stc, Ctx(mun, None, None, 0))
+            except Undecided as exc:
+                raise AnalysisError(f'Ammo.__init__: {exc}') from exc
+            if not isinstance(obj, Inst):
+                raise AnalysisError(f'Ammo(...) evaluates to {obj!r}')
+            hsw = stc.heap[obj.oid].get('use_powder_sensitivity')
+            alts = [x for _cp, x in cond_leaves(hsw)] if hsw is not None else []
+            n_ctor += 1
+            if not alts or not all(isinstance(x, Const) and bool(x.value) is sw for x in alts):
+                ctor_bad.append(f'Ammo(..., use_powder_sensitivity={sw}) with {mod_label} stores the switch as {hsw!r}')
+            hm = stc.heap[obj.oid].get('temp_modifier')
+            want_m = A.sym('m') if 'a modifier' in mod_label else A.rf(0)
+            if not all(isinstance(x, Scalar) and x.rf.equals(want_m) for _cp, x in cond_leaves(hm)):
+                ctor_bad.append(f'Ammo(...) with {mod_label} stores the modifier {hm!r}')
+    if ctor_bad:
+        init_f = prog.func(C.M_MUN, 'Ammo.__init__')
+        rep.fail('C17.R3', mun.path, init_f.node.lineno, init_f.qualname, 'constructor',
+                 ctor_bad[0] + ': an ammunition built with the switch on and calibrated afterwards does not reproduce the second '
+                 'measurement')
+    else:
+        rep.ok('C17.R3', f'{mun.path}:{ac.node.lineno}', f'Ammo.__init__ keeps the switch and the modifier as given ({n_ctor} combinations): '
+               f'calibrating after construction takes effect')
     # equal measurements are rejected
     rejected = True
     for path, leaf in cond_leaves(ret):
